@@ -15,7 +15,7 @@ from . import common
 
 ID = "C08"
 RUNS = {"quick": 1500, "thorough": 100000}
-TIME = {"quick": 75, "thorough": 1500}
+TIME = {"quick": 150, "thorough": 1500}
 WALL = 240.0
 HASHSEEDS = {"quick": [0, 1, 2, 31337], "thorough": [0, 1, 2, 3, 7, 1234, 31337, 4294967295]}
 RULES = ("STV", "STV", "IRV", "SequentialRCV", "Plurality", "SNTV", "Borda", "TopTwo", "Alaska", "DominatingSets", "CondoBorda",
@@ -28,7 +28,7 @@ RULE_TEXT = (
 )
 ASSUMPTIONS = [
     "comparison is on canonical values: groups as sorted lists, scores as exact strings, profiles never by ballot order; order inside a reported tied group is free",
-    "a variant or baseline whose run met a non-trivial draw at the seam is a 'random path' and exempt (counted), exactly as the statement scopes",
+    "a variant or baseline whose run met a non-trivial draw at the seam AND records a tiebreak in some round (or uses the random transfer) is a 'random path' and exempt (counted), as the statement scopes; draws without any recorded tiebreak stay in scope",
 ]
 case_size = common.case_size
 
@@ -264,7 +264,14 @@ def execute(case, trace=False):
         if rename_util(ut, back) != base_ut:
             diff = [k for k in base_ut if rename_util(ut, back).get(k) != base_ut[k]]
             viol("utility", f"{diff[0] if diff else '?'}: {rename_util(ut, back).get(diff[0]) if diff else ut} vs baseline {base_ut.get(diff[0]) if diff else base_ut}", name)
-        if base_nt or nt:
+        # the statement exempts runs in which a random tiebreak is RECORDED (and rules that are random by configuration, i.e. the
+        # random transfer).  A run that drew at the seam but recorded no tiebreak in any round is still in scope: its outcome
+        # must not depend on names, order or hash seed (the trap resolves draws in canonical name order, so it will if it does)
+        unrecorded = (st is not None and base_st is not None and kw.get("transfer") != "random"
+                      and not any(x.get("tiebreaks") for x in st) and not any(x.get("tiebreaks") for x in base_st))
+        if (base_nt or nt) and unrecorded:
+            bump(probes, "draws_without_recorded_tiebreak_compared")
+        if (base_nt or nt) and not unrecorded:
             bump(probes, "random_path_exempt")
             flags.append("r")
             continue
